@@ -30,6 +30,18 @@ raw() before and after every read-only operation of a history (Query, MutateResu
 the same description - without it the from-scratch comparison would be made against a description the read-only call
 itself rewrote.  The generated documents hold STAGE-level blueprints on the default platform and on the others.
 
+ARGUMENT IDENTITY (round 5): the object handed to update_component / set_component_option / add_component is, in a
+share of the calls, not a fresh dictionary but live state of the object: THE definition the description stores for
+the component (what get_component(comp_id, return_copy=False) or an entry of get_components(return_copy=False) is),
+THE section that is being replaced or the same section of another component, THE dictionary of the global variables of
+a platform (a kept get_platform_global_variables(p, return_copy=False)), or a new dictionary whose sections ARE live
+sections (Driver.resolve_arg; recipes {'@live': ...} / {'@share': ...} in the histories).  Model: the operation with
+the argument's VALUE at the time of the call (play() returns the history written that way: rops).  Predicate, part 3:
+the description after such a call equals the one the same call with an equal, independent copy produces on an object
+built from the same description.  A write through a live reference may now be committed by any mutator of that
+component instead of invalidate_cache_for_component (in_domain = Cache.Model.ok_hist with Cache.Model.commits), e.g.
+edit the live definition in place and hand it back to update_component.
+
 Not covered: operations that rename a component (option route `name`/`stage`, update_component with another
 identity); values the C04 model does not interpret (array indices, interpreter, memory/qos converters)."""
 import copy
@@ -89,6 +101,8 @@ ASSUMPTIONS = [
     'exceptions are compared by class (and variable name for FlowIRVariableUnknown / FlowIRVariableInvalid)',
     'the read-only calls other than the plain query (ReadOnly) are compared with the model as no-ops on description '
     'and cache labels; what they return is not modelled (their results are only scrambled in place by the caller)',
+    'a mutator handed an object that is (shares parts with) live state of the object means the call with the value of '
+    'that object at the time of the call; the harness computes that value (a deep copy taken just before the call)',
 ]
 HEADER = 'Require Import V.Lib.JTree V.Conf.Model V.Cache.Model V.Cache.Generated.\nOpen Scope string_scope.'
 CORPUS = os.path.join(os.path.dirname(os.path.abspath(__file__)), 'corpus', 'c08')
@@ -256,6 +270,17 @@ def gen_doc(rng, stream):
     return doc, plats, ids
 
 
+SECTIONS = ['command', 'variables', 'override', 'resourceManager', 'resourceRequest', 'workflowAttributes']
+
+
+def gen_share_parts(rng, alive, own):
+    """entries of a new dictionary that ARE live sections of a component of the description (mostly the component the
+    dictionary is about to replace, sometimes another one)"""
+    src = own if (own is not None and rng.random() < 0.6) or not alive else rng.choice(alive)
+    keys = rng.sample(SECTIONS, rng.choice([1, 2, 2, 3]))
+    return [[k, [src[0], src[1], [k]]] for k in keys]
+
+
 RO_KINDS = ['conf', 'conf_node', 'var_refs', 'instance', 'replicate', 'validate', 'copy', 'blueprints',
             'environments', 'misc']
 RO_WEIGHTED = ['conf'] * 4 + ['conf_node'] * 2 + ['instance'] * 4 + ['replicate'] * 2 + RO_KINDS
@@ -303,7 +328,28 @@ def gen_ops(rng, plats, ids, nops, stream, live=False):
             route = '.'.join(P1 if e == '@P1' else e for e in rng.choice(ROUTES)).split('.')
             ops.append(['LiveWrite', s, n, route, gen_route_value(rng, route, tag)])
             if not live or rng.random() < 0.5:
-                ops.append(['Invalidate', s, n])        # the discipline: write, then invalidate at once
+                # the discipline: write, then at once invalidate - or commit with a mutator of that component
+                rc = rng.random()
+                if rc < 0.6:
+                    ops.append(['Invalidate', s, n])
+                elif rc < 0.75:
+                    # hand the edited live definition back to update_component
+                    ops.append(['ReplaceComp', s, n, {'@live': [s, n, []], 'via': rng.choice([0, 1]),
+                                                      'else': gen_component(rng, s, n, plats, tag)}])
+                elif rc < 0.85:
+                    v = rng.choice(VARS[:3])
+                    ops.append(['SetCompVar', s, n, v, gen_str_value(rng, v, tag), rng.randrange(4)])
+                elif rc < 0.92:
+                    route = '.'.join(P1 if e == '@P1' else e for e in rng.choice(ROUTES)).split('.')
+                    ops.append(['SetOption', s, n, route, gen_route_value(rng, route, tag), rng.randrange(3)])
+                elif rc < 0.97:
+                    ops.append(['DelCompVar', s, n, rng.choice(['x', 'y', 'g']), rng.randrange(4)])
+                elif rc < 0.99:
+                    ops.append(['ReplaceComp', s, n, gen_component(rng, s, n, plats, tag)])
+                else:
+                    ops.append(['DelComp', s, n])
+                    if (s, n) in alive:
+                        alive.remove((s, n))
             continue
         if r0 < 0.095:
             s, n = some_id()
@@ -334,7 +380,19 @@ def gen_ops(rng, plats, ids, nops, stream, live=False):
             s, n = some_id()
             # (the interface takes the route as one dotted string: a platform name with a dot splits)
             route = '.'.join(P1 if e == '@P1' else e for e in rng.choice(ROUTES)).split('.')
-            ops.append(['SetOption', s, n, route, gen_route_value(rng, route, tag), rng.randrange(3)])
+            value = gen_route_value(rng, route, tag)
+            if isinstance(value, dict) and rng.random() < 0.4:
+                # ARGUMENT IDENTITY: the section handed in IS a live section of the description - the very section
+                # that is being replaced, the same section of another component, or (for `variables`) the live
+                # dictionary of the global variables of a platform
+                if route[-1] == 'variables' and rng.random() < 0.2:
+                    value = {'@live': ['@globals', rng.choice(plats)], 'else': value}
+                elif rng.random() < 0.5 or not alive:
+                    value = {'@live': [s, n, route], 'via': rng.choice([0, 1]), 'else': value}
+                else:
+                    s2, n2 = rng.choice(alive)
+                    value = {'@live': [s2, n2, route], 'via': 0, 'else': value}
+            ops.append(['SetOption', s, n, route, value, rng.randrange(3)])
         elif r < 0.72:
             s, n = some_id()
             # (the interface takes the route as one dotted string: a platform name with a dot splits)
@@ -363,12 +421,36 @@ def gen_ops(rng, plats, ids, nops, stream, live=False):
             c = gen_component(rng, s, n, plats, tag)
             if s == 0 and rng.random() < 0.3:
                 del c['stage']
+            r2 = rng.random()
+            if r2 < 0.25 and alive:
+                # a new dictionary that shares sections with a live component
+                c = {'@share': c, 'parts': gen_share_parts(rng, alive, None)}
+            elif r2 < 0.29 and alive:
+                # the live definition of a component that exists (refused: nothing may change)
+                s2, n2 = rng.choice(alive)
+                c = {'@live': [s2, n2, []], 'via': 0, 'else': c}
             ops.append(['AddComp', c])
             if (s, n) not in alive:
                 alive.append((s, n))
         elif r < 0.96:
             s, n = some_id()
-            ops.append(['ReplaceComp', s, n, gen_component(rng, s, n, plats, tag, sparse=rng.random() < 0.3)])
+            c = gen_component(rng, s, n, plats, tag, sparse=rng.random() < 0.3)
+            r2 = rng.random()
+            if r2 < 0.22:
+                # ARGUMENT IDENTITY: the caller hands back the live definition it holds (get_component(comp_id,
+                # return_copy=False) or an entry of get_components(return_copy=False)), in half of the cases after it
+                # edited the definition in place (write, invalidate, then "commit" with update_component)
+                if rng.random() < 0.5 and len(ops) + 3 <= nops:
+                    route = '.'.join(P1 if e == '@P1' else e for e in rng.choice(ROUTES)).split('.')
+                    ops.append(['LiveWrite', s, n, route, gen_route_value(rng, route, tag)])
+                    if rng.random() < 0.5:
+                        ops.append(['Invalidate', s, n])    # (not needed: update_component commits the write)
+                c = {'@live': [s, n, []], 'via': rng.choice([0, 1]), 'else': c}
+            elif r2 < 0.38:
+                # a new dictionary (own identity and command) whose other sections ARE live sections
+                c = {'@share': {'name': n, 'stage': s, 'command': c['command']},
+                     'parts': [kp for kp in gen_share_parts(rng, alive, (s, n)) if kp[0] != 'command' or rng.random() < 0.5]}
+            ops.append(['ReplaceComp', s, n, c])
         else:
             s, n = some_id()
             ops.append(['DelComp', s, n])
@@ -553,12 +635,79 @@ class Driver(object):
             pass
         return out
 
-    def apply(self, conc, op, state):
-        """apply one operation to the live object; state['last'] = the configuration handed out last"""
-        k = op[0]
+    def live_object(self, conc, state, src, via=0):
+        """THE object the description stores (no copy) - what a caller holds after get_components(return_copy=False)
+        [via=0: handing out is not an event], get_component(comp_id, return_copy=False) [via=1: the accessor
+        invalidates the labels of the component when it hands out] or get_platform_global_variables(p,
+        return_copy=False) [src = ['@globals', p]: a reference the caller kept from the time the cache was empty].
+        src = [stage, name, route]: the sub-object at `route` of the component ([] = the component itself).
+        None when there is no such object (no such component / platform / route)."""
+        if src and src[0] == '@globals':
+            return state.get('grefs', {}).get(src[1])
+        s, n, route = src
+        if via == 1:
+            comp = conc.get_component((s, n), return_copy=False)   # (FlowIRComponentUnknown: the caller's call raises)
+        else:
+            comp = None
+            try:
+                for c in conc.get_components(return_copy=False):
+                    if isinstance(c, dict) and c.get('stage') == s and c.get('name') == n:
+                        comp = c
+                        break
+            except Exception:
+                return None
+        obj = comp
+        for point in route:
+            if not isinstance(obj, dict) or point not in obj:
+                return None
+            obj = obj[point]
+        return obj
 
-        def val(x):
+    def resolve_arg(self, conc, state, x):
+        """the object a mutator is handed, for an argument written as a recipe over live state:
+          {'@live': src, 'via': v, 'else': literal}     the live object itself (ARGUMENT IDENTITY: the argument IS
+                                                        state the mutator is about to replace / read)
+          {'@share': base, 'parts': [[key, src], ...]}  a new dictionary whose entries `key` are live sub-objects
+        Returns (object, its value at the time of the call as an independent copy, is it / does it share live state)"""
+        if '@live' in x:
+            obj = self.live_object(conc, state, x['@live'], x.get('via', 0))
+            if obj is None or not isinstance(obj, (dict, list)):
+                o = copy.deepcopy(x.get('else'))
+                return o, copy.deepcopy(o), False
+            return obj, copy.deepcopy(obj), True
+        o = copy.deepcopy(x['@share'])
+        shared = False
+        for key, src in x.get('parts', []):
+            obj = self.live_object(conc, state, src, 0)
+            if obj is not None:
+                o[key] = obj
+                shared = shared or isinstance(obj, (dict, list))
+        return o, copy.deepcopy(o), shared
+
+    def apply(self, conc, op, state):
+        """apply one operation to the live object; state['last'] = the configuration handed out last;
+        state['rop'] = the operation with its argument written as the VALUE it had at the time of the call (what the
+        model is told), state['identity'] = the argument was / shared live state of the object"""
+        k = op[0]
+        state['rop'] = op
+        state['identity'] = False
+
+        def val(x, at=None):
             # the object handed to the mutator; the caller (this harness) keeps it and may change it later (MutateArg)
+            if is_spec(x):
+                try:
+                    o, value, shared = self.resolve_arg(conc, state, x)
+                except Exception:
+                    # the caller's own get_component(comp_id, return_copy=False) raised: the mutator is never called
+                    value = copy.deepcopy(x.get('else'))
+                    state['rop'] = op[:at] + [value] + op[at + 1:]
+                    state.setdefault('args', []).append(copy.deepcopy(value))
+                    raise
+                state['rop'] = op[:at] + [value] + op[at + 1:]
+                state['identity'] = shared
+                # (what the caller may scramble later is its own object: never the live state itself)
+                state.setdefault('args', []).append(copy.deepcopy(value))
+                return o
             o = copy.deepcopy(x)
             state.setdefault('args', []).append(o)
             return o
@@ -627,7 +776,7 @@ class Driver(object):
                 else:
                     self.remove_option(conc, cid, op[3], how - 1)
             elif k == 'SetOption':
-                self.set_option(conc, (op[1], op[2]), '#' + '.'.join(op[3]), val(op[4]), op[5] if len(op) > 5 else 0)
+                self.set_option(conc, (op[1], op[2]), '#' + '.'.join(op[3]), val(op[4], 4), op[5] if len(op) > 5 else 0)
             elif k == 'DelOption':
                 self.remove_option(conc, (op[1], op[2]), '#' + '.'.join(op[3]), op[4] if len(op) > 4 else 0)
             elif k == 'SetGlobal':
@@ -643,9 +792,9 @@ class Driver(object):
             elif k == 'RefPlatStage':
                 conc.get_platform_stage_variables(op[2], op[1], return_copy=False)[op[3]] = val(op[4])
             elif k == 'AddComp':
-                conc.add_component(val(op[1]))
+                conc.add_component(val(op[1], 1))
             elif k == 'ReplaceComp':
-                conc.update_component((op[1], op[2]), val(op[3]))
+                conc.update_component((op[1], op[2]), val(op[3], 3))
             elif k == 'DelComp':
                 conc.delete_component((op[1], op[2]))
             else:
@@ -655,6 +804,10 @@ class Driver(object):
                 raise
             return self.exc(e)
         return ['done']
+
+
+def is_spec(x):
+    return isinstance(x, dict) and ('@live' in x or '@share' in x)
 
 
 def scramble_any(o):
@@ -852,14 +1005,32 @@ def classes_of(case):
     return cl
 
 
+COMMITTING = ('Invalidate', 'SetCompVar', 'DelCompVar', 'SetOption', 'DelOption', 'ReplaceComp', 'DelComp')
+
+
+def commits(cid, op):
+    """mirror of Cache.Model.commits: the call drops the labels of component cid whenever it exists
+    (invalidate_cache_for_component, or a mutator of that component: they all go through
+    get_component(cid, return_copy=False) / invalidate themselves)"""
+    if op is None or op[0] not in COMMITTING or (op[1], op[2]) != cid:
+        return False
+    if op[0] in ('SetOption', 'DelOption') and op[3] and op[3][0] in ('name', 'stage'):
+        return False
+    if op[0] == 'ReplaceComp' and not is_spec(op[3]):
+        return isinstance(op[3], dict) and (op[3].get('stage'), op[3].get('name')) == cid
+    return True
+
+
 def in_domain(ops):
-    """mirror of Cache.Model.ok_hist for the live-reference operations"""
+    """mirror of Cache.Model.ok_hist for the live-reference operations: a write through a live reference to a
+    component is followed at once by a call that commits that component (ops: the history, arguments written as
+    values - play()'s rops - or as recipes)"""
     for i, op in enumerate(ops):
         if op[0] == 'LiveVarWrite':
             return False
         if op[0] == 'LiveWrite':
             nxt = ops[i + 1] if i + 1 < len(ops) else None
-            if not (nxt and nxt[0] == 'Invalidate' and (nxt[1], nxt[2]) == (op[1], op[2])):
+            if (op[3] and op[3][0] in ('name', 'stage')) or not commits((op[1], op[2]), nxt):
                 return False
     return True
 
@@ -872,11 +1043,32 @@ def play(drv, case, upto=None):
     keep_global_refs(conc, state)
     raw0 = conc.raw()
     prev = canon_doc(raw0)
-    obs, keys, fails = [], [], []
+    obs, keys, fails, rops = [], [], [], []
     for i, op in enumerate(case['ops'][:upto]):
+        before = conc.raw() if has_spec(op) else None
         o = drv.apply(conc, op, state)
         obs.append(o)
+        rops.append(state['rop'])
         keys.append(sorted(conc._cache.keys()))
+        if before is not None and state.get('identity'):
+            # the property predicate, part 3 (ARGUMENT IDENTITY): the update was handed an object that is, or shares
+            # parts with, the state it replaces.  An update means the VALUE of its arguments at the time of the call:
+            # the same call with an equal but independent copy, on an object built from the same description, must
+            # leave the same description (and end the same way)
+            try:
+                twin = drv.new(before, case['active'])
+                same_start = canon_doc(twin.raw()) == canon_doc(before)
+            except Exception:
+                same_start = False
+            if same_start:
+                to = drv.apply(twin, state['rop'], {})
+                want, got = canon_doc(twin.raw()), canon_doc(conc.raw())
+                if want != got or canon(to) != canon(o):
+                    fails.append((i, '%s handed an object that %s: the description afterwards differs from the one the '
+                                  'same call with an equal, independent copy produces at %s (outcome %s, with the copy %s)'
+                                  % (op[0], identity_text(op), doc_diff(json.loads(want), json.loads(got)) if want != got
+                                     else 'no place', o[:2], to[:2])))
+            state['identity'] = False
         # the property predicate, part 2: only the mutators change the description
         now = canon_doc(conc.raw())
         if op[0] in READ_ONLY_OPS and now != prev:
@@ -896,7 +1088,24 @@ def play(drv, case, upto=None):
                 what = ('a query after %s returns %s although the current description resolves to %s'
                         % (last_mutator(case['ops'][:i]), brief(o, fo), brief(fo, o)))
                 fails.append((i, what))
-    return raw0, obs, keys, fails
+    return raw0, obs, keys, fails, rops
+
+
+def has_spec(op):
+    return any(is_spec(x) for x in op[1:])
+
+
+def identity_text(op):
+    x = [v for v in op[1:] if is_spec(v)][0]
+    if '@live' in x:
+        src = x['@live']
+        if src[0] == '@globals':
+            return 'IS the live dictionary of the global variables of platform %r (return_copy=False)' % (src[1],)
+        return 'IS the live %s of component stage%s.%s (%s)' % (
+            'definition' if not src[2] else 'section ' + '.'.join(src[2]), src[0], src[1],
+            'get_component(return_copy=False)' if x.get('via') else 'get_components(return_copy=False)')
+    return 'shares the live sections %s with the description' % ', '.join(
+        '%s of stage%s.%s' % (k, src[0], src[1]) for k, src in x.get('parts', []))
 
 
 READ_ONLY_OPS = ('Query', 'MutateResult', 'MutateArg', 'Invalidate', 'ReadOnly')
@@ -961,10 +1170,10 @@ def shrink(drv, case, idx, what):
         if not in_domain(c['ops']):
             return False
         try:
-            _r, _o, _k, fl = play(drv, c)
+            _r, _o, _k, fl, ro = play(drv, c)
         except Exception:
             return False
-        return any(w == what for _i, w in fl)
+        return in_domain(ro) and any(w == what for _i, w in fl)
     changed = True
     budget = 200
     while changed and budget > 0:
@@ -985,10 +1194,10 @@ def explore(ctx, cases):
     base = drv.F.FlowIR.inject_default_values_to_component({})
     terms, kept = [], []
     for case in cases:
-        raw0, obs, keys, fails = play(drv, case)
+        raw0, obs, keys, fails, rops = play(drv, case)
         cls = classes_of(case)
         seen = set()
-        if not in_domain(case['ops']):
+        if not in_domain(rops):
             # a write through a live reference that is not followed at once by the invalidation of that component
             # is not an update through the configuration interface: the property says nothing about the history.
             # The stale answers are still compared with the model (which predicts them).
@@ -1027,6 +1236,11 @@ def explore(ctx, cases):
         ctx.count('mutators_run_on_warm_cache', stale_chance)
         for op, o in zip(ops, obs):
             ctx.count('op=' + op[0])
+            if has_spec(op):
+                x = [v for v in op[1:] if is_spec(v)][0]
+                ctx.count('argument_identity=%s:%s' % (op[0], 'shares-live-sections' if '@share' in x else
+                                                       'live-global-variables' if x['@live'][0] == '@globals' else
+                                                       'live-definition' if not x['@live'][2] else 'live-section'))
             if op[0] == 'Query':
                 ctx.count('query_outcome=' + ('ok' if o[0] == 'val' else o[1]))
             elif o[0] == 'exc':
@@ -1037,7 +1251,7 @@ def explore(ctx, cases):
                         'observations': [o if o[0] != 'val' else ['val', o[1].get('command')] for o in obs]})
         if case.get('stream') == 'interpreter':
             continue            # predicate only (see interpreter_cases)
-        terms.append(case_term(raw0, ops, obs, keys, base))
+        terms.append(case_term(raw0, rops, obs, keys, base))
         kept.append((case, obs, keys))
     for (kind, outcome), cnt in sorted(drv.ro_stats.items()):
         ctx.count('read_only_outcome=%s:%s' % (kind, outcome), cnt)
@@ -1186,6 +1400,27 @@ EX2_ALPHABET = [
 EX2_SWEEP = [['Query', 'p', 0, 'foo'], ['Query', 'default', 0, 'foo'], ['Query', 'p', 0, 'foo1'], ['Query', 'default', 0, 'foo1']]
 
 
+# third family: ARGUMENT IDENTITY - the mutators are handed objects that are, or share sections with, the live state
+# (document EX_DOC)
+EX3_ALPHABET = [
+    ['Query', 'p', 0, 'foo'],
+    # update_component(foo, get_component(foo, return_copy=False))
+    ['ReplaceComp', 0, 'foo', {'@live': [0, 'foo', []], 'via': 1, 'else': {'name': 'foo', 'stage': 0}}],
+    # update_component(foo1, {new command, the live variables and override of foo1})
+    ['ReplaceComp', 0, 'foo1', {'@share': {'name': 'foo1', 'stage': 0, 'command': {'executable': 'r', 'arguments': 'shared %(x)s'}},
+                                'parts': [['variables', [0, 'foo1', ['variables']]], ['override', [0, 'foo1', ['override']]]]}],
+    # set_component_option(foo1, '#variables', <the live variables of foo>)
+    ['SetOption', 0, 'foo1', ['variables'], {'@live': [0, 'foo', ['variables']], 'via': 0, 'else': {}}, 0],
+    # set_component_option(foo, '#command', <the live command of foo>): the section that is being replaced
+    ['SetOption', 0, 'foo', ['command'], {'@live': [0, 'foo', ['command']], 'via': 1, 'else': {}}, 0],
+    # add_component({name foo2, the live command and variables of foo})
+    ['AddComp', {'@share': {'name': 'foo2', 'stage': 0},
+                 'parts': [['command', [0, 'foo', ['command']]], ['variables', [0, 'foo', ['variables']]]]}],
+    ['SetCompVar', 0, 'foo', 'x', 'x-new', 0],
+]
+EX3_SWEEP = EX_SWEEP + [['Query', 'p', 0, 'foo2']]
+
+
 def exhaustive_cases(maxlen):
     out = []
     for L in range(1, maxlen + 1):
@@ -1195,6 +1430,10 @@ def exhaustive_cases(maxlen):
     for L in range(1, maxlen + 1):
         for seq in itertools.product(EX2_ALPHABET, repeat=L):
             out.append({'doc': EX2_DOC, 'active': 'p', 'ops': [copy.deepcopy(o) for o in seq] + EX2_SWEEP,
+                        'stream': 'exhaustive'})
+    for L in range(1, maxlen + 1):
+        for seq in itertools.product(EX3_ALPHABET, repeat=L):
+            out.append({'doc': EX_DOC, 'active': 'p', 'ops': [copy.deepcopy(o) for o in seq] + EX3_SWEEP,
                         'stream': 'exhaustive'})
     return out
 
@@ -1242,7 +1481,11 @@ def run(ctx):
                 'get_component_configuration with raw / include_default=False / is_primitive / inject_missing_fields=False, '
                 'configurationForNode and getOptionForNode of conf.py and graph.py, instance(platform), replicate(platform), '
                 'validate, copy, blueprint and environment accessors - whose results are scrambled in place; ~34% queries '
-                'at random positions) on a live FlowIRConcrete over documents with 3 '
+                'at random positions; in ~40% of the update_component calls, ~30% of the add_component calls and ~40% of the '
+                'set_component_option calls that take a section the argument IS live state of the object - the live '
+                'definition handed back, the section being replaced, the same section of another component, the live '
+                'global variables of a platform - or a new dictionary sharing live sections; a live write is committed by '
+                'invalidate_cache_for_component or by a mutator of that component) on a live FlowIRConcrete over documents with 3 '
                 'platforms, 2-4 components at stages 0/1/10 whose names are prefixes of each other (foo/foo1/foo10/fo, '
                 'stage1 vs stage10), in half of the documents stage-level blueprints with variable references on the '
                 'default platform and on the others and components that leave their arguments to the blueprints; '
@@ -1251,7 +1494,8 @@ def run(ctx):
                 '(outside the property: model comparison only), the corpus (first), and every history of '
                 'length <= 3 (thorough: 4) over a 12-operation alphabet followed by a sweep of 4 queries, and over a '
                 '7-operation alphabet (2 queries, 3 read-only calls, 2 mutators) on a document with stage-level '
-                'blueprints; non-trivial = '
+                'blueprints, and over a 7-operation alphabet of mutators handed live state (the live definition, a '
+                'dictionary sharing live sections, a live section of the same / another component); non-trivial = '
                 'at least two queries and at least one mutator executed while the cache held entries; distinct by '
                 '(document, history)')
     rng = ctx.rng
@@ -1262,7 +1506,8 @@ def run(ctx):
     ctx.exhaustive = True
     ctx.extra['exhaustive_scope'] = ('all histories of length <= %d over %d operations (+ 4 final queries) on one document, and '
                                      'over %d operations (queries, 3 read-only calls, 2 mutators) on a document with '
-                                     'stage-level blueprints' % (3 if quick else 4, len(EX_ALPHABET), len(EX2_ALPHABET)))
+                                     'stage-level blueprints, and over %d operations handed live state (argument identity)'
+                                     % (3 if quick else 4, len(EX_ALPHABET), len(EX2_ALPHABET), len(EX3_ALPHABET)))
     cases += ex
     cases += random_cases(rng, 420 if quick else 2500, 'prefix')
     cases += random_cases(rng, 200 if quick else 1200, 'meta')
